@@ -1,4 +1,4 @@
-"""Translator plugin for C16 (also used by C03 later): Gen.RankTable
+"""Translator plugin for C16 (also used by C03 later): Gen.RankTable, Gen.ResolveShape
 
 Re-extracted from /repo on every run:
   ir/src/ir_types.rs     enum ScalarType, enum NumericDimension
@@ -264,4 +264,126 @@ def register(gen, T):
             out.append(f"  if (match c with {' '.join('| ' + p for p in lpats)} => {g} | _ => false) then {val} else\n")
         out.append("  none -- no arm matched: a Rust match is exhaustive, so this is unreachable when the last arm is a catch-all\n")
         out.append(T.footer("RankTable"))
+        return "".join(out)
+
+
+    # ------------------------------------------------------------------------------------------------------------
+    @gen("ResolveShape")
+    def resolve_shape():
+        """Fingerprint of the resolution routines: the loops of find_function_type, the template half and the `zip`
+        loop of find_overload_casts, try_infer_template_type, normalize_template_type, and the places that hand an
+        overload list over.  Each fact is a regular expression over the source with comments and all white space
+        removed; the full squashed text of the four transcribed functions is emitted too and compared (Thm.C16) with
+        the text the Lean model was transcribed from (Model/OverloadSrc.lean)."""
+        expr = T.src("typer/src/typer/expressions.rs")
+        scopes = T.src("typer/src/typer/scopes.rs")
+
+        def squash(text):
+            return re.sub(r'\s+', '', text)
+
+        fft = squash(fn_body(expr, "find_function_type"))
+        foc = squash(fn_body(expr, "find_overload_casts"))
+        tit = squash(fn_body(expr, "try_infer_template_type"))
+        ntt = squash(fn_body(expr, "normalize_template_type"))
+        fid = squash(fn_body(scopes, "find_identifier"))
+        fis = squash(fn_body(scopes, "find_identifier_in_scope"))
+        ifs = squash(fn_body(scopes, "insert_function_in_scope"))
+        gsm = squash(fn_body(scopes, "get_struct_member_expression"))
+        E = re.escape
+        facts = [
+            # ---- find_function_type
+            ("arityGuardThenCasts", fft,
+             E("foroverloadinoverloads{letsignature=context.module.function_registry.get_function_signature(*overload);"
+               "ifparam_types.len()<=signature.param_types.len()&&param_types.len()>=signature.non_default_params"
+               "&&letOk((new_id,param_casts))=find_overload_casts(*overload,template_args,param_types,context)"
+               "{casts.push((new_id,param_casts))}}")),
+            ("tournamentComparesAllPairsSkippingSelf", fft,
+             E("for(candidate,candidate_casts)in&casts{letmutwinning=true;for(against,against_casts)in&casts{"
+               "ifcandidate==against{continue;}")),
+            ("zipLoopHasNoEarlyExitAndOnlyWorseLoses", fft,
+             E("letmutnot_worse_than=true;for(candidate_cast,against_cast)incandidate_casts.iter().zip(against_casts){"
+               "letcandidate_rank=*candidate_cast.get_rank().get_numeric_rank();"
+               "letagainst_rank=*against_cast.get_rank().get_numeric_rank();"
+               "matchcandidate_rank.compare(&against_rank){ConversionPriority::Better=>{}ConversionPriority::Equal=>{}"
+               "ConversionPriority::Worse=>not_worse_than=false,};}")),
+            ("againstLoopBreaksOnWorseAndWinnersArePushed", fft,
+             E("if!not_worse_than{winning=false;break;}}ifwinning{winning_numeric_casts.push((*candidate,"
+               "candidate_casts.clone()));}}if!winning_numeric_casts.is_empty(){")),
+            ("countByRankCountsEqualVectorRank", fft,
+             E("fncount_by_rank(casts:&[ImplicitConversion],rank:&VectorRank)->usize{casts.iter()"
+               ".filter(|cast|cast.get_rank().get_vector_rank()==rank).count()}")),
+            ("orderVectorIsWorstToBestCounts", fft,
+             E("letorder=VectorRank::worst_to_best().iter().map(|rank|count_by_rank(&casts,rank)).collect::<Vec<_>>();"
+               "(overload,casts,order)};letcasts=winning_numeric_casts.into_iter().map(map_order).collect::<Vec<_>>();")),
+            ("bestOrderIsTheMinimumByLess", fft,
+             E("letmutbest_order=casts[0].2.clone();for(_,_,order)in&casts{if*order<best_order{best_order=order.clone();}}")),
+            ("keepsExactlyTheMinimal", fft,
+             E("letcasts=casts.into_iter().filter(|(_,_,order)|*order==best_order).collect::<Vec<_>>();")),
+            ("oneSelectedSeveralAmbiguousElseUnmatched", fft,
+             E("ifcasts.len()==1{let(candidate,casts,_)=casts[0].clone();returnOk((candidate,casts));}"
+               "ifcasts.len()>1{letambiguous_overloads=casts.iter().map(|c|c.0).collect::<Vec<_>>();"
+               "returnErr(TyperError::FunctionArgumentTypeMismatch(ambiguous_overloads,param_types.to_vec(),"
+               "call_location,true,));}}Err(TyperError::FunctionArgumentTypeMismatch(overloads.clone(),"
+               "param_types.to_vec(),call_location,false,))") + "$"),
+            # ---- find_overload_casts
+            ("tooManyTemplateArgsNotViable", foc,
+             E("if!signature.template_params.is_empty(){iftemplate_args.len()>signature.template_params.len(){returnErr(());}")),
+            ("explicitArgsFirstThenInferredValueParamsNever", foc,
+             E("foriin0..arg_count{letmutarg=ifi<template_args.len(){template_args[i].clone()}else{") + ".*?" +
+             E("ir::TemplateParam::Value(_)=>returnErr(()),};")),
+            ("firstParameterThatInfersWins", foc,
+             E("for(required_type,source_type)insignature.param_types.clone().iter().zip(param_types.iter()){"
+               "ifletSome(ty)=try_infer_template_type(template_type_id,required_type.type_id,source_type.0,context,)"
+               "{found_arg=Some(ty);break;}}matchfound_arg{Some(arg)=>Located::none(ir::TypeOrConstant::Type(arg)),"
+               "None=>returnErr(()),}};")),
+            ("everyTemplateArgIsNormalized", foc,
+             E("arg.node=matcharg.node{ir::TypeOrConstant::Type(ty)=>{ir::TypeOrConstant::Type(normalize_template_type(ty,context))}"
+               "ir::TypeOrConstant::Constant(c)=>ir::TypeOrConstant::Constant(c),};inferred_args.push(arg);}")),
+            ("templateArgsOnPlainFunctionNotViable", foc, E("}elseif!template_args.is_empty(){returnErr(());}")),
+            ("zipFindStopsAtFirstFailure", foc,
+             E("for(required_type,source_type)insignature.param_types.iter().zip(param_types.iter()){"
+               "letety=ExpressionType(required_type.type_id,required_type.input_modifier.into());"
+               "ifletOk(cast)=ImplicitConversion::find(*source_type,ety,&mutcontext.module){overload_casts.push(cast)}"
+               "else{returnErr(());}}Ok((id,overload_casts))") + "$"),
+            # ---- who hands over which overload list
+            ("innermostScopeWithTheNameWins", fid,
+             E("ifletSome(ve)=self.find_identifier_in_scope(scope,leaf_name){returnOk(ve);}}"
+               "scope_index=self.scopes[scope_index].parent_scope;")),
+            ("scopeContributesItsOwnFunctionsOnly", fis,
+             E("ScopeSymbol::Function(id)=>overloads.push(*id),") + ".*?" +
+             E("if!overloads.is_empty(){returnSome(VariableExpression::Function(UnresolvedFunction{overloads,}));}")),
+            ("overloadsAreAppended", ifs,
+             E("Entry::Occupied(mutoccupied)=>{occupied.get_mut().push(ScopeSymbol::Function(id));}"
+               "Entry::Vacant(vacant)=>{vacant.insert(Vec::from([ScopeSymbol::Function(id)]));}")),
+            ("methodsAreAllMethodsOfThatName", gsm,
+             E("foridin&self.module.struct_registry[id.0asusize].methods{letfunction_name=self.module.function_registry"
+               ".get_function_name(*id);iffunction_name==name.node{overloads.push(*id);}}")),
+        ]
+        out = [T.header("ResolveShape", ["typer/src/typer/expressions.rs", "typer/src/typer/scopes.rs"])]
+        out.append("/-- syntactic facts about the resolution routines (each a regular expression over the comment- and\n"
+                   "    white-space-free source); `false` = the source no longer has the shape the model transcribes -/\n")
+        out.append("structure Shape where\n" + "".join(f"  {k} : Bool\n" for k, _, _ in facts) + "  deriving DecidableEq, Repr\n\n")
+        out.append("def shape : Shape := {\n" +
+                   ",\n".join(f"  {k} := {'true' if re.search(rx, text, re.S) else 'false'}" for k, text, rx in facts) + " }\n\n")
+        # every caller of find_function_type (the routine is private to expressions.rs)
+        callers = []
+        for m in re.finditer(r'\bfn\s+([a-z_0-9]+)\b', expr):
+            try:
+                body = fn_body(expr[m.start():], m.group(1))
+            except ExtractError:
+                continue
+            if m.group(1) != "find_function_type" and re.search(r'\bfind_function_type\s*\(', body):
+                callers.append(m.group(1))
+        out.append("/-- the functions that call `find_function_type` -/\ndef callers : List String := " +
+                   T.lean_list(lean_str(c) for c in callers) + "\n\n")
+        # the overload list of a member call on an intrinsic object: all object functions of that name, in order
+        member = squash(fn_body(expr, "parse_expr_unchecked"))
+        objm = re.search(E("forfunc_idincontext.module.type_registry.get_object_functions(obj_id){"
+                           "ifcontext.module.function_registry.get_function_name(*func_id)==member.node{overloads.push(*func_id)}}"),
+                         member)
+        out.append(f"def objectMethodsAreAllFunctionsOfThatName : Bool := {'true' if objm else 'false'}\n\n")
+        for name, text in [("findFunctionType", fft), ("findOverloadCasts", foc), ("tryInferTemplateType", tit),
+                           ("normalizeTemplateType", ntt)]:
+            out.append(f"/-- body of `{name}` without comments and white space -/\ndef {name}Src : String :=\n  {lean_str(text)}\n\n")
+        out.append(T.footer("ResolveShape"))
         return "".join(out)
